@@ -114,11 +114,28 @@ def build_case(args):
         obs, _ = decio.observe(text, cz, True)
         obsx, _ = decio.observe(xtext, cz, True)
         case.update(obs=_obs_fix(obs), obsx=_obs_fix(obsx), xsrc=xsrc, xtext=xtext)
+        # siblings, read in the same process right after with the same names: every definition given another
+        # value, and no definition at all - the decay lines are textually identical, their meaning is not
+        sibs = []
+        if any(st["k"] == "Define" for st in src):
+            swapped = [dict(st, v="sw" + st["v"]) if st["k"] == "Define" else st for st in src]
+            bare = [st for st in src if st["k"] != "Define"]
+            for j, ssrc in enumerate((swapped, bare)):
+                stext = decio.render_file(cz, ssrc)
+                sx = expand_defs(ssrc)
+                sxtext = decio.render_file(cz, sx)
+                so, _ = decio.observe(stext, cz, True)
+                sxo, _ = decio.observe(sxtext, cz, True)
+                sibs.append({"prop": prop, "cid": f"{cid}s{j}", "src": ssrc, "base": base, "incl": incl, "obs": _obs_fix(so),
+                             "obsx": _obs_fix(sxo), "xsrc": sx, "xtext": sxtext, "text": stext})
+        case["siblings"] = sibs
     else:
         obs, _ = decio.observe(text, cz, incl)
         case.update(obs=_obs_fix(obs))
     case["text"] = text
     case["maps"] = {k: dict(v) if not isinstance(v, IdentityMap) else "identity" for k, v in cz.maps().items()}
+    for sb in case.get("siblings", []):
+        sb["maps"] = case["maps"]
     return case
 
 
@@ -204,7 +221,12 @@ def record(o: Outcome, cases, rejected, *, keys=("src", "incl", "base")):
 def run_cases(prop, specs, o: Outcome, wd: Path, what: str, seed: int, identity=False, procs=16):
     """specs: list of (src, base, incl).  Build against the real code in parallel, judge with TLC."""
     args = [(prop, i, s, b, inc, seed * 1000003 + i, identity) for i, (s, b, inc) in enumerate(specs)]
-    cases = pmap(build_case, args, procs=procs)
+    built = pmap(build_case, args, procs=procs)
+    cases = []
+    for c in built:
+        sibs = c.pop("siblings", [])
+        cases.append(c)
+        cases.extend(sibs)
     rejected = judge(cases, wd, o, what)
     record(o, cases, rejected)
     return cases, rejected
